@@ -385,10 +385,10 @@ M("c14-result-absent-suspends", "C14", "R2.callback-result", "context.py",
 
 # ----------------------------------------------------------------------------- C16
 M("c16-generator-on-branches", "C16", "R4.generator-attached-to-batch-context", "concurrency/executor.py",
-  """                sub_type=self.sub_type_iteration,
-            ),""", """                sub_type=self.sub_type_iteration,
-                summary_generator=self.summary_generator,
-            ),""", desc="the repaired defect, re-introduced")
+  """                    sub_type=self.sub_type_iteration,
+                ),""", """                    sub_type=self.sub_type_iteration,
+                    summary_generator=self.summary_generator,
+                ),""", desc="the repaired defect, re-introduced")
 M("c16-large-records-full-payload", "C16", "R1.summary-not-payload", "operation/child.py",
   """                serialized_result = (
                     self.config.summary_generator(raw_result)
@@ -1009,3 +1009,68 @@ M("c15-tuple-in-fast-path", "C15", "R5.fast-path-domain", "serdes.py",
   "        if isinstance(obj, list):\n            return all(", "        if isinstance(obj, list | tuple):\n            return all(")
 M("c15-uuid-tagged-str", "C15", "R", "serdes.py",
   "        return EncodedValue(TypeTag.UUID, str(obj))", "        return EncodedValue(TypeTag.STR, str(obj))")
+
+# ----------------------------------------------------------------------------- benign refactors: every check must stay silent
+import re as _re
+
+
+def _rename(old, new):
+    return lambda src: (_re.sub(rf"\b{old}\b", new, src) if _re.search(rf"\b{old}\b", src) else None)
+
+
+M2("benign-rename-local-step", "ALL", "", [{"file": "operation/step.py", "fn": _rename("checkpointed_result", "cp")}], expect="silent")
+M2("benign-rename-local-child", "ALL", "", [{"file": "operation/child.py", "fn": _rename("serialized_result", "payload_text")}], expect="silent")
+M2("benign-rename-local-state", "ALL", "", [{"file": "state.py", "fn": _rename("queued_op", "entry")}], expect="silent")
+M2("benign-rename-local-wrapper", "ALL", "", [{"file": "execution.py", "fn": _rename("serialized_result", "body")}], expect="silent")
+M("benign-extract-size-helper", "ALL", "", "operation/child.py",
+  "            if len(serialized_result) > CHECKPOINT_SIZE_LIMIT:\n                logger.debug(",
+  "            too_large = len(serialized_result) > CHECKPOINT_SIZE_LIMIT\n            if too_large:\n                logger.debug(", expect="silent")
+M("benign-early-return-inverted", "ALL", "", "operation/wait.py",
+  """        if checkpointed_result.is_succeeded():
+            logger.debug(
+                "Wait already completed, skipping wait for id: %s, name: %s",
+                self.operation_identifier.operation_id,
+                self.operation_identifier.name,
+            )
+            return CheckResult.create_completed(None)
+""", """        already_done = checkpointed_result.is_succeeded()
+        if already_done:
+            return CheckResult.create_completed(None)
+""", expect="silent")
+M("benign-extra-logging", "ALL", "", "state.py",
+  "        # Enqueue the wrapper object (operation_update can be None for empty checkpoints)\n",
+  "        logger.debug(\"about to enqueue %s\", queued_op)\n        # Enqueue the wrapper object (operation_update can be None for empty checkpoints)\n", expect="silent")
+M("benign-new-helper-method", "ALL", "", "state.py",
+  "    def stop_checkpointing(self) -> None:", "    def pending_count(self) -> int:\n        return self._checkpoint_queue.qsize()\n\n    def stop_checkpointing(self) -> None:", expect="silent")
+M("benign-invoke-reorder-checks", "ALL", "", "operation/invoke.py",
+  """        # Still running - ready to suspend
+        if checkpointed_result.is_started():
+            logger.debug(
+                "⏳ Invoke %s still in progress, will suspend",
+                self.operation_identifier.name or self.function_name,
+            )
+            return CheckResult.create_is_ready_to_execute(checkpointed_result)
+""", """        # Still running - ready to suspend
+        still_running = checkpointed_result.is_started()
+        if still_running:
+            return CheckResult.create_is_ready_to_execute(checkpointed_result)
+""", expect="silent")
+
+
+def _track_helper(src):
+    a = """        try:
+            result: R = executor.process()
+        finally:
+            self.state.track_replay(operation_id=operation_id)
+        return result"""
+    if src.count(a) != 1:
+        return None
+    src = src.replace(a, """        try:
+            result: R = executor.process()
+        finally:
+            self._visited(operation_id)
+        return result""")
+    return src.replace("    def _create_step_id(self) -> str:", "    def _visited(self, operation_id: str) -> None:\n        self.state.track_replay(operation_id=operation_id)\n\n    def _create_step_id(self) -> str:", 1)
+
+
+M2("benign-track-helper", "ALL", "", [{"file": "context.py", "fn": _track_helper}], expect="silent")
